@@ -166,6 +166,14 @@ pub fn test_case(case: &TrainCase) -> TestResult {
 pub fn run(rep: &mut Report) {
     liblinear::toggle_liblinear_stdout_output(false);
     let _guard = util::redirect_output("/verif/target/C09-train-output.log");
+    rep.run_enum(
+        "long-words",
+        "the long-token corpora of C11 (a token of 127 / 255 / 256 / 257 / 300 characters that is a \
+dictionary word and an ambiguous tagged token, buckets 1 / 4 / 255): same oracle",
+        false,
+        [127usize, 255, 256, 257, 300].into_iter().enumerate().flat_map(|(k, l)| [crate::checks::c11::long_word_case(l, k), crate::checks::c11::long_word_case(l, k + 1)]),
+        |c: &TrainCase| test_case(c).map(|mut i| { i.nontrivial = true; i }),
+    );
     let n = rep.n(20000, 1000000);
     rep.run_prop(
         "trained-function",
